@@ -15,16 +15,18 @@ import (
 var rules = []string{
 	`a\.test`, `(?i)a\.test`, `^a`, `test$`, `a|b`, `(a|b)\.test`, `[ab]+$`, `a.*x`,
 	`(?s)^.$`, `x{2}`, `(?i)^B`, `(?i:c)d`, `^$`, `(?U)a+`, `(?-i)T`, `\.`, `(?m)^b$`, `^(?i)x|y$`,
+	// pure literals anchored at both ends / one end (an implementation may be tempted to treat literals specially)
+	`^a\.test$`, `^b$`, `^a\.test`, `xx`,
 }
 
 var hosts = []string{
 	"a.test", "A.TEST", "b.test", "B.test", "xa.testx", "ab", "xx", "XX", "", "cd", "CD", "Cd", "T", "t",
-	"y", "Y", "x", "X", "b", "a\nb", "\n", "aax", "AAX",
+	"y", "Y", "x", "X", "b", "a\nb", "\n", "aax", "AAX", "xa.test", "a.test.evil", "bb", "axxb",
 }
 
 func TestC17(t *testing.T) {
 	s := explore.NewSuite(t, "C17", "exploration",
-		"every ordered list of <=L rules (L=2 quick, 3 thorough; plus L=4 over a 6-rule sub-alphabet in thorough) drawn from 18 regular expressions x {include, exclude}, each evaluated on 23 host strings through ruleset.ParseRegexpListItem + NewRegexpMatcherFromList (+Inverse) and compared with a reference that evaluates every rule on its own with package regexp; non-trivial = the list has at least one include rule so a matcher is built and compared")
+		"every ordered list of <=L rules (L=2 quick, 3 thorough; plus L=4 over a 6-rule sub-alphabet in thorough) drawn from 22 regular expressions x {include, exclude}, each evaluated on 27 host strings through ruleset.ParseRegexpListItem + NewRegexpMatcherFromList (+Inverse) and compared with a reference that evaluates every rule on its own with package regexp; non-trivial = the list has at least one include rule so a matcher is built and compared")
 	s.Assume = []string{"package regexp (used for the per-rule reference) is trusted"}
 	compiled := make([]*regexp.Regexp, len(rules))
 	for i, r := range rules {
